@@ -8,64 +8,64 @@ BASE = json.load(open("/root/.vp/BASELINE.json"))["cmd"]
 CHECKS = {
  # id: (category, technique, text, note, design_ref)
  "C12": ("model_checking", "explicit-state enumeration of all token sequences <= n, differential against a two-state reference scanner",
-         "every marker/tag/word/newline token sequence up to the bound (6 quick, 8 thorough) in 4 renderings is run through the real extract_reuse_info and compared with a two-state reference scanner; complete within the bound",
+         "every marker/tag/word/newline token sequence up to the bound (6 quick, 8 thorough) in 4 renderings is run through the real extract_reuse_info and compared with a two-state reference scanner; short sequences and big snippet files with blocks across multiples of 4096 also go through `reuse lint`; complete within the bound",
          "alphabet of 7 tokens; tag grammar itself trusted to C02", "4/C12"),
  "C05": ("model_checking", "regex-to-automaton extraction + complete product exploration against reference automata (language inclusion), model bound to the code by exhaustive short-path replay",
          "for every glob over {a . / * \\} up to length 6 (quick) / 8 (thorough) and every pair of globs of length <= 2, the automaton of the regex the real code compiles is compared with the narrow/wide reference automata by exploring the whole reachable product (paths of any length); every path of length <= 3 (5 on a slice) and every counterexample is replayed on the real matches() and through `reuse lint`; plus a complete CLI plumbing slice (31 globs x 2 REUSE.toml locations x 25 files)",
          "glob alphabet of 5 symbols; realistic relative paths; Python's matcher equals NFA acceptance for the constructs used", "4/C05"),
  "C20": ("model_checking", "complete product enumeration against an independent notice model",
-         "all holders x year forms x 10 prefixes through make_copyright_line and the tool's reader; every subset (<=3 quick, <=4 thorough) of a 36-notice universe through merge_copyright_lines; the same through the annotate CLI read back by lint",
+         "all holders x year forms x 10 prefixes through make_copyright_line and the tool's reader; every subset (<=3 quick, <=5 thorough) of a 36-notice universe through merge_copyright_lines; the same through the annotate CLI read back by lint",
          "holder grammar of 40 strings; notices that themselves look like tags/terminators excluded", "4/C20"),
  "C04": ("model_checking", "complete enumeration of the finite precedence product, reference precedence model",
-         "every chain of up to three nested REUSE.toml files (13^3 plus decoy-table variants; all 49^3 in thorough) x 24 file states, plus dep5 cells, judged per file against refmodel.precedence on the (value, source, source_type) items of lint --json",
+         "every chain of up to three nested REUSE.toml files (13^3 plus decoy-table variants incl. literal-path decoys and directory-name variants; all 49^3 in thorough) x 24 file states, plus dep5 cells, judged per file against refmodel.precedence on the (value, source, source_type) items of lint --json",
          "one glob ('**') per table; values distinct per source so provenance is observable", "4/C04"),
  "C06": ("model_checking", "complete product enumeration (identifier class x use x provision) against a set-algebra inventory model",
-         "7 identifier classes x 11 ways of use x 7 ways of provision (539 trees, plus a second representative per class), each through the real `reuse lint --json`, all five inventory categories and used_licenses compared with refmodel.inventory; plus three trees over all bundled SPDX identifiers",
+         "8 identifier classes (two representatives each) x 13 ways of use (incl. a case twin of the identifier in a second file) x 7 ways of provision, each through the real `reuse lint --json`, all five inventory categories and used_licenses compared with refmodel.inventory; plus three trees over all bundled SPDX identifiers",
          "one representative identifier per class (two in thorough); SPDX data files are the authority for known/deprecated", "4/C06"),
  "C01": ("model_checking", "complete exploration of a defect-injection lattice over compliant-by-construction trees, verdict model derived from the abstract tree description",
-         "7 base trees (headers, .license siblings + binaries, REUSE.toml override, nested closest/aggregate, dep5, compound expressions + LicenseRef, odd-but-valid TOML values) x {no VCS, Git} x every set of <= 2 (quick) / <= 4 (thorough) of 14 atomic defects, plus non-covered clutter in every tree; exit status, every category's offender set, summary.compliant and files[] compared with refmodel.verdict",
+         "8 base trees (headers + a snippet file whose marker straddles byte 4096, .license siblings + binaries, REUSE.toml override, nested closest/aggregate, dep5, compound expressions + LicenseRef, odd-but-valid TOML values, one closest table shared by six files) x {no VCS, Git} x every set of <= 3 (quick) / <= 5 (thorough) of 15 atomic defects, plus non-covered clutter in every tree; exit status, every category's offender set, summary.compliant and files[] compared with refmodel.verdict",
          "trees of <= 7 covered files; unreadable files simulated by a failing open() seam (sandbox runs as root)", "4/C01"),
  "C13": ("model_checking", "complete exploration of the C01 lattice x output formats x lint-file subsets/spellings, cross-format differential oracle",
          "for every C01 state the five lint invocations are parsed and must agree per category and with the exit status and JSON summary; for defect sets up to the lint-file bound all 32 subsets of a 5-path menu x 4 spellings go through lint-file and must equal lint's per-file problems",
          "C locale messages; names with spaces/non-ASCII but no newline", "4/C13"),
  "C18": ("model_checking", "complete enumeration of trees x option combinations and of an expression family; truth-table equivalence for LicenseConcluded",
-         "every C01 base x defect sets (<=1 quick, <=2 thorough) x 5 option combinations of `reuse spdx`, all licence-expression trees with <= 2 operators over 3 atoms (alone and paired) and checksum chunk-boundary sizes; each document parsed by a strict tag-value reader and compared with lint --json, hashlib.sha1 and every truth assignment of the atoms",
+         "every C01 base x defect sets (<=2 quick, <=3 thorough) x 5 option combinations of `reuse spdx`, all licence-expression trees with <= 2 operators over 3 atoms (alone and paired) and checksum chunk-boundary sizes; each document parsed by a strict tag-value reader and compared with lint --json, hashlib.sha1 and every truth assignment of the atoms",
          "'X WITH Y' and 'X+' are atoms; LicenseRef texts without '</text>'", "4/C18"),
  "C10": ("model_checking", "complete product enumeration + all 2-step command histories; byte-equality oracle",
-         "every entry of the extension/file-name tables x line mode x 5 bodies, every --style x mode x prefix x year x template x target, hostile value tails built from each style's own marker, every ordered pair of an 8-command menu on 4 file types and 4-fold repetition: the scratch tree after the second identical run must be byte-identical",
+         "every entry of the extension/file-name tables x line mode x 5 bodies, every --style x mode x prefix x year x template x target, hostile value tails built from each style's own marker, single-kind requests x all ten prefixes x every style, every ordered pair of an 8-command menu on 4 file types and 4-fold repetition: the scratch tree after the second identical run must be byte-identical",
          "bodies free of other REUSE tags; fixed --year", "4/C10"),
  "C07": ("model_checking", "complete sub-product enumeration (file types, styles x options, templates x targets, hostile tokens, multi-file invocations) with read-back through lint",
-         "S1 every file type x mode x value set x prior content, S2 every style x mode x prefix x year x holder, S3 templates x target variants, S4 every comment token of any style in holder/contributor x style x mode, S5 every ordered selection of 4 files with different prior information (one shadowed by a .license) with and without -r: success => lint reads back exactly prior U requested; failure => tree unchanged",
+         "S1 every file type x mode x value set x prior content, S2 every style x mode x prefix x year x holder, S3 templates x target variants, S4 every comment token of any style in holder/contributor x style x mode, S5 every selection of 5 files with different prior information (one shadowed by a .license, one already holding the requested notice) with and without -r under 4 naming variants: success => lint reads back exactly prior U requested; failure => tree unchanged",
          "holder grammar of 4 + token-built values; default year accepted as the year before/after the call", "4/C07"),
  "C11": ("fault_enumeration", "exhaustive enumeration of failing-file subsets x argument orders x targets, whole-tree snapshot oracle",
-         "every ordered selection of 3 of 9 file kinds x every non-empty set of comment terminators in the holder (which makes exactly the files of those styles fail) with >= 1 failing file, information-dropping templates x targets, and every usage-error cell with the offending file in each position: failing files and siblings byte-identical, none created, healthy files annotated, exit status 1 (2 for usage errors with nothing touched)",
+         "every ordered selection of 3 (thorough also every 4-subset) of 9 file kinds, under naming variants that make both processing orders occur, x every non-empty set of comment terminators in the holder (which makes exactly the files of those styles fail) with >= 1 failing file, information-dropping templates x targets, and every usage-error cell with the offending file in each position: failing files and siblings byte-identical, none created, healthy files annotated, exit status 1 (2 for usage errors with nothing touched)",
          "anticipated failure causes only (those the statement lists)", "4/C11"),
  "C08": ("model_checking", "complete enumeration of line-token sequences x file-shape dimensions, structural byte-level oracle with the split known by construction",
-         "every sequence (<=3 for python/c, <=2 for 6 more styles; <=5/<=3 over 27 styles in thorough) over 9 line tokens x {none, BOM, shebang, BOM+shebang} x {LF, CRLF, CR} x final newline x {replace, --no-replace}: the new file must be core(before) + header block + core(after) with BOM/shebang first, one line-ending convention, and nothing but comment lines in the header block",
+         "every sequence (<=3 for python/c, <=2 for 6 more styles; <=4/<=3 over 27 styles in thorough) over 10 line tokens x {none, BOM, shebang, BOM+shebang, two declarations} x {LF, CRLF, CR} x final newline x {replace, --no-replace}: the new file must be core(before) + header block + core(after) with BOM/shebang first, one line-ending convention, and nothing but comment lines in the header block",
          "mixed line endings inside one file unspecified; in single-line styles the replaced block is the maximal adjacent comment run", "4/C08"),
  "C09": ("model_checking", "explicit-state BFS over command histories with state de-duplication, running-model invariant on every transition",
          "breadth-first search over all sequences (<=3 quick, <=4 thorough) of a 12-command annotate menu from 6 initial files x 4 styles, every transition executed by the real command on a scratch tree, states hashed on (tree bytes, model); after each transition the read-back must equal old U requested (semantically for --merge-copyrights)",
          "reuse is stateless between invocations (soundness of state merging); nocontrib templates may drop contributors of the replaced block", "4/C09"),
  "C03": ("model_checking", "complete product enumeration (name x place x kind; .gitignore rule sets; submodule/subproject options x cwd) with Git's check-ignore as oracle",
-         "every (name, location, kind) cell over 42 names x 9 locations x 5 kinds packed and cell by cell, Git repositories for every .gitignore rule set (<=2 of 6 quick, all 64 thorough) x nested .gitignore over files in tracked/untracked/ignored states, and submodule + Meson subproject trees x 4 option combinations x 3 working directories; the examined sets of lint --json, spdx, lint-file and annotate -r must equal the reference covered set on every specified path",
+         "every (name, location, kind) cell over 42 names x 9 locations x 5 kinds packed and cell by cell, Git repositories for every .gitignore rule set (<=3 of 6 quick, all 64 thorough) x nested .gitignore over files in tracked/untracked/ignored states, and submodule + Meson subproject trees x 4 option combinations x 3 working directories; the examined sets of lint --json, spdx, lint-file, annotate -r <root> and annotate -r <every directory> must equal the reference covered set on every specified path",
          "Git 2.39.5 is the oracle for VCS exclusion; unspecified cells (nested LICENSES/.reuse, lower-case names, .git files) not asserted", "4/C03"),
  "C14": ("model_checking", "deviation-bounded exhaustive enumeration of environment answers behind harness-owned seams (virtual process pool, directory-listing order, hash seed, cwd, root spelling)",
-         "8 trees x every pool chunk size x chunk execution order on a virtual pool that pickles the callable per chunk, every permutation of every directory listing (complete product or <= 2 deviating directories), 4 working directories x 6 root spellings, and one fresh interpreter per PYTHONHASHSEED (64 quick / 512 thorough): normalised lint --json and spdx output must equal the reference run",
+         "10 trees (incl. case-variant identifiers and a Git submodule) x every pool chunk size x chunk execution order on a virtual pool that pickles the callable per chunk, every permutation of every directory listing (complete product or <= 2 deviating directories), 4 working directories x 6 root spellings, and one fresh interpreter per PYTHONHASHSEED (64 quick / 512 thorough): normalised lint --json and spdx output must equal the reference run",
          "kernel scheduling of real worker processes is not explored (virtual pool; one free-running real-pool run per tree is sampling); hash seeds are a finite range", "4/C14"),
  "C16": ("fault_enumeration", "exhaustive enumeration of malformed-input shapes and of single (and pairwise) I/O fault points, each under every subcommand",
-         "every REUSE.toml key x 13 TOML value shapes (root and nested; key pairs), 15 broken TOML files, 15 dep5 cases, 11 hostile byte classes x {header, .license}, 5 LICENSES/ oddities, and an OSError (4 errnos) injected at the k-th project-file open for every k (every pair in thorough), each under up to 8 subcommands: exit status in {0,1,2}, no escaping exception, configuration errors name the file, other files still reported",
+         "every REUSE.toml key x 13 TOML value shapes (root and nested; key pairs), 30 hostile strings as path globs, 15 broken TOML files, 15 dep5 cases, 11 hostile byte classes x {header, .license}, 5 LICENSES/ oddities, and an OSError (4 errnos) injected at the k-th project-file open for every k (every pair in thorough), each under up to 9 command lines: exit status in {0,1,2}, no escaping exception, configuration errors name the file, other files still reported",
          "python-debian's own acceptance of odd dep5 files is not judged; network stubbed", "4/C16"),
  "C19": ("model_checking", "exhaustive enumeration of request sets x LICENSES states x per-identifier network outcomes (deviation-bounded) + all 2-command histories, against a stub network",
-         "every request set (<=3 of 6 identifiers) x 3 LICENSES/ states x every assignment of 6 failure kinds to <=1 (quick) / <=2 (thorough) identifiers, invocation directory x VCS x --root, 13 option variants, every ordered pair of 6 download commands: only LICENSES/<id>.txt or --output created, nothing pre-existing altered, no partial file, exit status reflects failures, no URL for LicenseRef-, ID+ fetched as ID, lint clean after --all",
+         "every request set (<=3 of 6 identifiers) x 3 LICENSES/ states x every assignment of 6 failure kinds to <=2 identifiers, invocation directory x VCS x --root, 13 option variants, every ordered pair of 6 download commands: only LICENSES/<id>.txt or --output created, nothing pre-existing altered, no partial file, exit status reflects failures, no URL for LicenseRef-, ID+ fetched as ID, lint clean after --all",
          "network replaced by a stub of urllib.request.urlopen that records URLs", "4/C19"),
  "C15": ("model_checking", "explicit-state BFS over command-line histories with content de-duplication; per-transition snapshot invariant",
-         "breadth-first search over all sequences (<=2 quick, <=3 thorough) of a 26-entry menu covering every subcommand from 5 initial trees (plain, Git with ignored/untracked files, symlinks pointing outside the project, dep5, read-only files); after each transition a content + mode + mtime snapshot of the project and of a sentinel directory outside it is compared with what the command is documented to touch",
+         "breadth-first search over all sequences (<=2 quick, <=4 thorough) of a 27-entry menu covering every subcommand from 5 initial trees (plain, Git with ignored/untracked files, symlinks pointing outside the project, dep5, read-only files); after each transition a content + mode + mtime snapshot of the project and of a sentinel directory outside it is compared with what the command is documented to touch",
          ".git internals not compared; network stubbed; pool virtual", "4/C15"),
  "C17": ("model_checking", "regex-to-automaton extraction of both matchers + complete product exploration (language equality), exhaustive paragraph-sequence enumeration through the real command, fault enumeration of the write/unlink order",
-         "every dep5 pattern over {a . / * ? \\} up to length 4 (quick) / 6 (thorough): the automaton of python-debian's matcher and of the matcher produced by the real conversion pipeline are compared in both directions over paths of any length (short paths and every counterexample replayed on the real matchers); every sequence of <= 3 Files paragraphs from a 12-entry menu and 36 field variants go through `reuse convert-dep5` with lint --json compared before/after; 6 fault/refusal cells for the write-then-unlink order",
+         "every dep5 pattern over {a . / * ? \\} up to length 4 (quick) / 7 (thorough): the automaton of python-debian's matcher and of the matcher produced by the real conversion pipeline are compared in both directions over paths of any length (short paths and every counterexample replayed on the real matchers); every sequence of <= 3 Files paragraphs from a 12-entry menu and 36 field variants go through `reuse convert-dep5` with lint --json compared before/after; 6 fault/refusal cells for the write-then-unlink order",
          "realistic relative paths without whitespace; two recorded known findings ('?' and whole-segment '*')", "4/C17"),
  "C02": ("model_checking", "complete product enumeration of generated comment texts (expected value known by construction) + window/line-ending/snippet placement product through lint",
-         "slice A: every real comment style x {single-line, inline multi-line, block multi-line} x 8 decorations (frame, indentation, trailing blanks, stacked own / foreign terminators) x every licence, contributor and copyright prefix x holder x year value, read by the real extract_reuse_info; slice B: tag position relative to the 4096-byte window x {LF, CRLF, CR} x snippet marker x filler, and a snippet marker at every offset around multiples of 4096; slice C: unparseable expressions silence the file",
+         "slice A: every real comment style x {single-line, inline multi-line, block multi-line} x 9 decorations (frame, indentation, trailing blanks, blanks after the terminator, stacked own / foreign terminators) x every licence, contributor and copyright prefix x holder x year value, read by the real extract_reuse_info; slice B: tag position relative to the 4096-byte window x {LF, CRLF, CR} x snippet marker x filler, and a snippet marker at every offset around multiples of 4096; slice C: unparseable expressions silence the file",
          "values ending in a terminator / mirrored prefix and tags straddling byte 4096 are observed only", "4/C02"),
 }
 PENDING_REASON = "check not built yet in this session (design in DESIGN.md section 4); not claimed until its machinery exists"
